@@ -221,6 +221,9 @@ class HTTPStream:
                         )
                         self.state = ASGIHTTPState.TRAILERS
                         break
+                else:
+                    # Without a response head there is nothing to end
+                    raise UnexpectedMessageError(self.state, message["type"])
 
                 if not message.get("more_trailers", False):
                     await self._send_closed()
